@@ -2,6 +2,8 @@ package main
 
 import (
 	"crypto/x509"
+	"crypto/x509/pkix"
+	"encoding/asn1"
 	"fmt"
 	"math/big"
 
@@ -162,4 +164,84 @@ func c01vRun(r *Run, ca *CA, origin *Origin, caFile, dir string, idx int, c c01v
 	if idx < 2 {
 		r.Sample(map[string]interface{}{"cell": c, "listed": listed})
 	}
+}
+
+
+// c01NameLayouts: "listed => rejected" for issuers whose distinguished name is not laid out the way crypto/x509 would write
+// it (attribute order, several attributes in one RDN, repeated attribute types in separate RDNs, attribute types x509 has no
+// field for): the CRL's entries are stored under the issuer name as encoded, so whatever derives the lookup key from the
+// presented certificate has to keep the encoded name too.
+func c01NameLayouts(r *Run) {
+	origin := NewOrigin()
+	defer origin.Close()
+	atv := func(oid asn1.ObjectIdentifier, v string) pkix.AttributeTypeAndValue {
+		return pkix.AttributeTypeAndValue{Type: oid, Value: v}
+	}
+	oC, oO, oOU, oCN := asn1.ObjectIdentifier{2, 5, 4, 6}, asn1.ObjectIdentifier{2, 5, 4, 10}, asn1.ObjectIdentifier{2, 5, 4, 11}, asn1.ObjectIdentifier{2, 5, 4, 3}
+	oDC, oMail := asn1.ObjectIdentifier{0, 9, 2342, 19200300, 100, 1, 25}, asn1.ObjectIdentifier{1, 2, 840, 113549, 1, 9, 1}
+	c, o, cn := atv(oC, "AT"), atv(oO, "C01 Example"), atv(oCN, "C01 Issuing CA")
+	ia5 := func(oid asn1.ObjectIdentifier, v string) pkix.AttributeTypeAndValue {
+		return pkix.AttributeTypeAndValue{Type: oid, Value: asn1.RawValue{Tag: asn1.TagIA5String, Bytes: []byte(v)}}
+	}
+	layouts := []struct {
+		name string
+		rdn  pkix.RDNSequence
+	}{
+		{"canonical", pkix.RDNSequence{{c}, {o}, {cn}}},
+		{"cn-first", pkix.RDNSequence{{cn}, {o}, {c}}},
+		{"one-rdn", pkix.RDNSequence{{c, o, cn}}},
+		{"two-ou-rdns", pkix.RDNSequence{{c}, {o}, {atv(oOU, "Unit A")}, {atv(oOU, "Unit B")}, {cn}}},
+		{"domain-components", pkix.RDNSequence{{ia5(oDC, "org")}, {ia5(oDC, "example")}, {cn}}},
+		{"with-email", pkix.RDNSequence{{c}, {o}, {cn}, {ia5(oMail, "ca@example.org")}}},
+		{"cn-twice", pkix.RDNSequence{{c}, {atv(oCN, "C01 Root")}, {cn}}},
+	}
+	type job struct {
+		layout  int
+		storage string
+		src     string
+		pem     bool
+	}
+	var jobs []job
+	for l := range layouts {
+		for i, st := range []string{"memory", "disk"} {
+			for k, src := range []string{"cdp", "url"} {
+				jobs = append(jobs, job{l, st, src, (l+i+k)%2 == 0})
+			}
+		}
+	}
+	parallel(len(jobs), 8, func(i int) {
+		j := jobs[i]
+		ca := NewCA(CAOpts{EC: true, RawSubject: mustMarshal(layouts[j.layout].rdn)})
+		caFile := writeFile(scratchDir("c01n"), "ca.pem", certPEM(ca.Cert))
+		path := fmt.Sprintf("/c01n/%d.crl", i)
+		serial := big.NewInt(int64(88000 + i))
+		lo := LeafOpts{Serial: serial}
+		cfg := VCfg{Mode: "crl_only", WorkDir: scratchDir("c01nw"), Storage: j.storage, SigMode: "verify", TrustedSigners: []string{caFile}, UpdateInterval: "10h", CDPStrict: true}
+		if j.src == "cdp" {
+			lo.CDP = []string{origin.URL(path)}
+		} else {
+			cfg.CRLUrls = []string{origin.URL(path)}
+		}
+		listed := ca.IssueLeaf(lo)
+		lo.Serial = big.NewInt(int64(99000 + i))
+		free := ca.IssueLeaf(lo)
+		origin.SetBytes(path, ca.MakeCRL(CRLOpts{Serials: []*big.Int{big.NewInt(5), serial, big.NewInt(7)}, Number: 2, PEM: j.pem}))
+		v, err := Provision(cfg)
+		if err != nil {
+			r.Violate("C01 provision-failed", fmt.Sprintf("name layout %s: %v", layouts[j.layout].name, err), nil)
+			return
+		}
+		defer v.Close()
+		vl, _ := v.Verify([][]*x509.Certificate{{listed.Cert, ca.Cert}})
+		vf, _ := v.Verify([][]*x509.Certificate{{free.Cert, ca.Cert}})
+		key := fmt.Sprintf("issuer-name-layout=%s storage=%s source=%s pem=%v", layouts[j.layout].name, j.storage, j.src, j.pem)
+		r.Eval(key, true)
+		r.Count("name-layout:" + layouts[j.layout].name + ":" + vl + "/" + vf)
+		if vl != "reject" {
+			r.Violate("C01 listed-but-accepted name-layout="+layouts[j.layout].name, key+": the certificate listed in the CRL of its issuer (in force, verified) was "+vl, nil)
+		}
+		if vf != "accept" {
+			r.Note("name layouts: the unlisted certificate was " + vf + " (" + key + ")")
+		}
+	})
 }
